@@ -49,6 +49,25 @@ def handler_branches(ctx: Ctx, rule: str, tf: Func, h: ast.ExceptHandler, exc_pa
                   f"the handler puts the exception into '{exc_param}' on a branch that did not establish that '{exc_param}' is present "
                   "(the branch tests something else): with the channel given but the tested object absent the exception is re-raised inside the worker thread and lost",
                   construct=f"handler put {exc_param}")
+    for x in puts:
+        # what is put is the exception that was caught: the handler's name, or sys.exc_info() - directly or through a local assigned in the handler
+        # on the way to the put (a local that is never assigned dies with NameError inside the worker thread: the error is lost)
+        arg = x.args[0] if x.args else None
+
+        def is_exc(e: ast.AST, depth: int = 2) -> bool:
+            if e is None:
+                return False
+            if any(isinstance(y, ast.Call) and dotted(y.func) == "sys.exc_info" for y in ast.walk(e)):
+                return True
+            if h.name is not None and any(isinstance(y, ast.Name) and y.id == h.name for y in ast.walk(e)):
+                return True
+            if isinstance(e, ast.Name) and depth > 0:
+                defs = [n for n in ast.walk(h) if isinstance(n, ast.Assign) and any(isinstance(t_, ast.Name) and t_.id == e.id for t_ in n.targets)]
+                return bool(defs) and all(is_exc(n.value, depth - 1) for n in defs) and any(tcfg.dominates(q.node_for(tf, n), q.node_for(tf, x)) for n in defs)
+            return False
+        ctx.check(is_exc(arg), rule, tf, x, "what goes into the channel is the caught exception",
+                  f"`{norm(x)}`: the value put into the error channel is not the caught exception (sys.exc_info() / the handler's name), or the local that should hold it is not assigned "
+                  "on the way: the put itself fails inside the worker thread and extraction/testzip report success", construct="handler put value")
     for r in raises:
         facts = q.facts_at(tf, r)
         absent = any((t := q.is_none_test(cd)) is not None and isinstance(t[0], ast.Name) and t[0].id == exc_param and t[1] == pol for cd, pol in facts) \
